@@ -138,6 +138,10 @@ def run(ctx, rep):
         if not ok8:
             rep.finding(R8, f'C09.R8/{case8}', cons8[0].split(' ')[0], 'Branch.find', f'{case8}: {detail8}')
     rep.floor('C09.R8', 'lookup cases', len(res8), 800)
+    RL9 = rep.rule('C09.R9', 'a rule stops offering targets because of a world / constant limit only in states where a quit flag is put on the branch (limit predicates and guarded '
+                             'target producers folded below / at / above the limit; = C02.R7): the projected limits depend on the premises given, so a silent stop at the limit would make '
+                             'the verdict depend on premise multiplicity')
+    common.limit_guards(ctx, rep, RL9, 'C09.R9')
     RF = rep.rule('C09.R7', 'no starvation behind the fairness gate (the C02.R8 fold): whenever some node still has an accessible world it was not applied to, the box-type rules offer a target -- an unsaturated open branch would make the verdict depend on the order and multiplicity of premises')
     common.fair_gate(ctx, rep, RF, 'C09.R7')
     R3 = rep.rule('C09.R3', 'build() is the step() loop')
